@@ -698,7 +698,14 @@ Definition p_rpc : parser rpc := fun w =>
 Inductive dop :=
 | OLoad (es : list engine)     (* [1; engines]   NewChainEngine            obs [ok] *)
 | OSdk (p : sdk)               (* [2; sdk]       authz.NewStatic           obs [ok] *)
-| OReq (d : rpc).              (* [3; request]   IsAuthorized / interceptor obs [code] *)
+| OReq (d : rpc)               (* [3; request]   IsAuthorized / interceptor obs [code] *)
+| OCall (defect via : Z) (d : rpc).
+  (* [4; defect; via; request]  the RPC as the server sees it: the interceptor
+     (via 0 UnaryInterceptor, 1 StreamInterceptor; a bare chain: IsAuthorized) with a
+     handler that records that it ran.  obs [code; handler_invoked]
+     defect: 0 none, 1 no metadata in ctx, 2 no peer, 3 no method (transport stream),
+             4 no connection, 5 local address without a port.  With a defect newRPCData
+             fails: no policy is evaluated, codes.Internal. *)
 
 Definition full {A} (r : option (A * list Z)) : option A :=
   match r with Some (a, []) => Some a | _ => None end.
@@ -709,6 +716,9 @@ Definition decode_op (op : word) : option dop :=
   | 1 :: w => match full (p_list (p_engine fuel) w) with Some es => Some (OLoad es) | None => None end
   | 2 :: w => match full (p_sdk w) with Some p => Some (OSdk p) | None => None end
   | 3 :: w => match full (p_rpc w) with Some d => Some (OReq d) | None => None end
+  | 4 :: defect :: via :: w =>
+    if (defect <? 0) || (defect >? 5) || (via <? 0) || (via >? 1) then None else
+    match full (p_rpc w) with Some d => Some (OCall defect via d) | None => None end
   | _ => None
   end.
 
@@ -736,6 +746,19 @@ Definition req_code (st : option (list engine)) (d : rpc) : Z :=
   | Some es => if is_authorized d es then 0 else 1
   end.
 
+(* StaticInterceptor.UnaryInterceptor / StreamInterceptor around IsAuthorized:
+   (code, handler invoked).  code 0 nil, 1 PermissionDenied, 2 another error (Internal).
+   The handler runs exactly when the request view could be built and the chain allows. *)
+Definition intercept (es : list engine) (defect : Z) (d : rpc) : Z * bool :=
+  if negb (defect =? 0) then (2, false)
+  else if is_authorized d es then (0, true) else (1, false).
+
+Definition call_word (st : option (list engine)) (defect : Z) (d : rpc) : word :=
+  match st with
+  | None => [3; 0]
+  | Some es => let r := intercept es defect d in [fst r; b2z (snd r)]
+  end.
+
 Fixpoint run_d (st : option (list engine)) (ops : list dop) : list word :=
   match ops with
   | [] => []
@@ -744,6 +767,7 @@ Fixpoint run_d (st : option (list engine)) (ops : list dop) : list word :=
   | OSdk p :: r => let st' := new_static p in
                    [b2z (match st' with Some _ => true | None => false end)] :: run_d st' r
   | OReq d :: r => [req_code st d] :: run_d st r
+  | OCall defect _ d :: r => call_word st defect d :: run_d st r
   end.
 
 Definition run (ops : list word) : option (list word) :=
@@ -756,7 +780,9 @@ Definition run (ops : list word) : option (list word) :=
    What is loaded is what the implementation said it accepted.
    clause 1: decision of a loaded RBAC chain = chain_sem_b
    clause 2: decision of an accepted SDK policy = sdk_sem_b
-   clause 3: shape of observations / a request with nothing loaded *)
+   clause 3: shape of observations / a request with nothing loaded
+   clause 4: an RPC reaches the handler only if the request view could be built and the
+             loaded policy's semantics allow it (fail closed) *)
 Inductive loaded := LNone | LChain (es : list engine) | LSdk (p : sdk).
 
 Definition req_clause (st : loaded) (d : rpc) (code : Z) : Z * Z * bool :=
@@ -766,6 +792,22 @@ Definition req_clause (st : loaded) (d : rpc) (code : Z) : Z * Z * bool :=
   | LSdk p => (2, code, code =? (if sdk_sem_b d p then 0 else 1))
   end.
 
+Definition allowed_b (st : loaded) (d : rpc) : bool :=
+  match st with
+  | LNone => false
+  | LChain es => chain_sem_b d es
+  | LSdk p => sdk_sem_b d p
+  end.
+
+Definition call_clauses (st : loaded) (defect : Z) (d : rpc) (code h : Z) : list (Z * Z * bool) :=
+  [(4, defect, (h =? 0) || ((h =? 1) && (defect =? 0) && allowed_b st d));
+   match st with
+   | LNone => (3, code, (code =? 3) && (h =? 0))
+   | _ => (if match st with LChain _ => true | _ => false end then 1 else 2, code,
+           negb (defect =? 0) ||
+           ((code =? (if allowed_b st d then 0 else 1)) && (h =? b2z (allowed_b st d))))
+   end].
+
 Fixpoint clauses_d (st : loaded) (ops : list dop) (obs : list word) : list (Z * Z * bool) :=
   match ops, obs with
   | [], [] => []
@@ -774,6 +816,7 @@ Fixpoint clauses_d (st : loaded) (ops : list dop) (obs : list word) : list (Z * 
   | OSdk p :: r, [ok] :: r' =>
     (3, 0, (ok =? 0) || (ok =? 1)) :: clauses_d (if ok =? 1 then LSdk p else LNone) r r'
   | OReq d :: r, [code] :: r' => req_clause st d code :: clauses_d st r r'
+  | OCall defect _ d :: r, [code; h] :: r' => call_clauses st defect d code h ++ clauses_d st r r'
   | _, _ => [(3, -1, false)]
   end.
 
